@@ -85,6 +85,7 @@ func specIsCompressed(flag uint32) bool  { return flag&FLAG_COMPRESS != 0 }
 //@   ints bv
 //@   modifies p.Flag, p.Body, p.Addr, p.Cap, cmem.AllocRL.Size, cmem.AllocRL.MaxSize, cmem.AllocRL.Count, cmem.AllocRL.MaxCount, ghostFail()
 //@   ensures !specIsCompressed(old(p.Flag)) ==> err == nil
+//@   ensures [assumed] old(len(p.Body)) < 1<<31 ==> len(p.Body) < 1<<31      // a value is at most BodyMax (< 2 GiB) bytes before compression (enforced on the write path), so a stored value decompresses to less than 2 GiB
 //@   ensures !specIsCompressed(old(p.Flag)) || err != nil ==> p.Flag == old(p.Flag) && sameSlice(p.Body, old(p.Body)) && p.Addr == old(p.Addr) && p.Cap == old(p.Cap)
 //@   ensures !specIsCompressed(old(p.Flag)) ==> cmem.AllocRL.Count == old(cmem.AllocRL.Count) && cmem.AllocRL.Size == old(cmem.AllocRL.Size)
 //@   ensures err != nil ==> cmem.AllocRL.Count == old(cmem.AllocRL.Count) && cmem.AllocRL.Size == old(cmem.AllocRL.Size)
